@@ -560,8 +560,12 @@ impl<'w> Exec<'w> {
         let docs = self.peer.server.state.workspace.verif_docs();
         for (path, (text, _)) in self.client.open.iter() {
             let uri = self.world.uri(path);
-            let loc = oal_model::locator::Locator::from(uri);
-            match docs.get(&loc) {
+            let loc = oal_model::locator::Locator::from(uri.clone());
+            // the server may keep the document under the spelling the client used or under
+            // any other spelling of the same file: both are fine, as long as it has the text
+            let fpath = uri.to_file_path().ok();
+            let found = docs.get(&loc).or_else(|| docs.iter().find(|(k, _)| fpath.is_some() && k.url().to_file_path().ok() == fpath).map(|(_, v)| v));
+            match found {
                 None => return Some(format!("{path}: open on the client, absent on the server")),
                 Some(t) if t != text => {
                     let k = t.bytes().zip(text.bytes()).position(|(a, b)| a != b).unwrap_or(t.len().min(text.len()));
